@@ -466,6 +466,38 @@ def run(ctx: Ctx) -> None:
                         continue
                     seen_fail.add(key)
                     ctx.failures.append(Failure('update-class', canon, {'asn4': case['asn4'], 'body': body.hex(), 'kind': case['kind'], 'code': case['code'], 'history': 'other-session-first'}, f'{b["where"]} (after the other session decoded the same bytes): {b["what"]}'))
+            # second history: a well-formed UPDATE without MP attributes (it fills the last-block cache), then the SAME
+            # body twice in a row on that session — a peer with a broken encoder sends the same malformed attributes
+            # for one batch of prefixes after the other.  The second copy is judged exactly like a first one.
+            goods = {a: [c['body'] for c, _, _ in results if c['kind'] == 'none' and c.get('nlri') == 'v4' and c['asn4'] == a] for a in (False, True)}
+            twice = [c for c in hist if c['kind'] != 'none'] + [c for c in hist if c['kind'] == 'none']
+            for case in twice[: (250 if ctx.tier == 'quick' else 6000)]:
+                if ctx.time_left() < (12 if ctx.tier == 'quick' else 60) or not goods[case['asn4']]:
+                    break
+                body = case['body']
+                good = ctx.rng.choice(goods[case['asn4']])
+                s = S[case['asn4']]
+                s.unpack(good)
+                s.unpack(body)
+                u = s.unpack(body)
+                s.read(good)
+                s.read(body)
+                r = s.read(body)
+                ctx.evaluations += 1
+                ctx.count('history:well-formed-then-twice')
+                for b in oracle(u, r, body, case['asn4']):
+                    ctx.count('oracle-fail-history:' + b['group'])
+                    key0 = json.dumps(breach_key(b))
+                    if key0 in seen_fail:
+                        continue
+                    seen_fail.add(key0)
+                    k = breach_key(b)
+                    canon = {'class': k[0], 'code': b.get('code'), 'corruption': b.get('group'), 'nlri': b.get('nlri'), 'history': 'well-formed-then-twice'}
+                    key = json.dumps(canon, sort_keys=True)
+                    if key in seen_fail:
+                        continue
+                    seen_fail.add(key)
+                    ctx.failures.append(Failure('update-class', canon, {'asn4': case['asn4'], 'body': body.hex(), 'good': good.hex(), 'kind': case['kind'], 'code': case['code'], 'history': 'well-formed-then-twice'}, f'{b["where"]} (second of two identical UPDATEs after a well-formed one): {b["what"]}'))
         finally:
             rig.Session.keep_caches = False
     finally:
@@ -486,6 +518,15 @@ def replay(path: str) -> int:
         other.read(body)
         r = s.read(body)
         other.close()
+    elif rp.get('history') == 'well-formed-then-twice':
+        rig.Session.keep_caches = True
+        good = bytes.fromhex(rp['good'])
+        s.unpack(good)
+        s.unpack(body)
+        u = s.unpack(body)
+        s.read(good)
+        s.read(body)
+        r = s.read(body)
     else:
         u = s.unpack(body)
         r = s.read(body)
